@@ -1,6 +1,92 @@
-//! Kani harnesses for core/src/proof/multi_proof.rs (compiled into the real crate only under cfg(kani)).
+//! K7 (multi-proof): totality of the multi-proof verifier over symbolic proof objects (C18).
 #![allow(unused_imports, dead_code)]
 use super::*;
+use crate::hasher::{BinaryHash, BinaryHasher};
+use crate::trie_pos::verif_kani::{any_trie_pos, trie_pos_with_depth};
+
+/// A cheap hash for totality harnesses: the verdict of a totality harness does not depend on hash
+/// values (every branch on a hash comparison is explored both ways by the symbolic root).
+pub(crate) struct ToyHash;
+impl BinaryHash for ToyHash {
+    fn hash(input: &[u8]) -> [u8; 32] {
+        let mut out = [0u8; 32];
+        out[0] = input[0];
+        out[1] = input[input.len() - 1];
+        out[31] = 1;
+        out
+    }
+}
+pub(crate) type H = BinaryHasher<ToyHash>;
+
+pub(crate) fn any_terminal() -> PathProofTerminal {
+    if kani::any() {
+        PathProofTerminal::Leaf(LeafData { key_path: kani::any(), value_hash: kani::any() })
+    } else {
+        PathProofTerminal::Terminator(any_trie_pos())
+    }
+}
+
+pub(crate) fn any_multi_path() -> MultiPathProof {
+    MultiPathProof { terminal: any_terminal(), depth: kani::any() }
+}
+
+pub(crate) fn any_siblings(max: usize) -> Vec<Node> {
+    let n: usize = kani::any();
+    kani::assume(n <= max);
+    let mut v = Vec::with_capacity(max);
+    let mut i = 0;
+    while i < max {
+        if i < n {
+            v.push(kani::any());
+        }
+        i += 1;
+    }
+    v
+}
+
+/// verify(multi_proof, root) returns Ok or Err for every multi-proof with one path (any terminal,
+/// any depth: usize) and up to 2 siblings, and any root.  Bounded in the lengths only.
+#[kani::proof]
+#[kani::unwind(4)]
+fn multi_verify_total_1path() {
+    let mp = MultiProof { paths: vec![any_multi_path()], siblings: any_siblings(2) };
+    let root: Node = kani::any();
+    let r = verify::<H>(&mp, root);
+    kani::cover!(r.is_ok(), "accepting run reachable");
+    kani::cover!(r.is_err(), "rejecting run reachable");
+}
+
+/// Two paths whose terminal paths diverge within their first 3 bits (bound on the common prefix,
+/// which is what bounds the loops), any depths, up to 3 siblings, any root.
+fn two_paths_diverging_early() -> (MultiPathProof, MultiPathProof) {
+    let a = any_multi_path();
+    let b = any_multi_path();
+    let pa = a.terminal.path();
+    let pb = b.terminal.path();
+    let n = if pa.len() < pb.len() { pa.len() } else { pb.len() };
+    // the first difference, if any, is among the first 3 bits; otherwise one path has < 3 bits
+    let mut i = 0;
+    let mut differ = false;
+    while i < 3 {
+        if i < n && pa[i] != pb[i] {
+            differ = true;
+        }
+        i += 1;
+    }
+    kani::assume(differ || n < 3);
+    (a, b)
+}
+
+#[kani::proof]
+#[kani::unwind(6)]
+fn multi_verify_total_2paths() {
+    let (a, b) = two_paths_diverging_early();
+    let mp = MultiProof { paths: vec![a, b], siblings: any_siblings(3) };
+    let root: Node = kani::any();
+    let r = verify::<H>(&mp, root);
+    kani::cover!(r.is_ok(), "accepting run reachable");
+    kani::cover!(r.is_err(), "rejecting run reachable");
+}
 
 #[cfg(test)]
 include!("/verif/.build/playback/core_multi_proof.inc");
